@@ -6,7 +6,7 @@ package main
 // transition system (trace inclusion, item identities included) and evaluates the Spec on the terminal counters.
 //
 // input keys: inst (tokens of the startup schedule) shared (1 = one shared profile, 0 = rps-per-instance) tokens ammo
-// (-1 = unbounded) discard past (every past-th token is overdue by late ms, default 3000) shotus sched (once|const|comp|comp2|line|step|paced<ms>)
+// (-1 = unbounded) discard past (every past-th token is overdue by late ms, default 3000) shotus sched (once|const|comp|comp2|line|step|paced<ms>|cz:<part>.<part>…)
 // start (once|ramp<ms>) prov (mock|json|jsonlimit|jsonpass|num) aggr (mock|phout)
 // ctl (""|rand:<seed>:<style>|path:<base-36 choices>|pb:<step>.<k>,… = preemption-bounded schedule)
 
@@ -52,6 +52,7 @@ func run(input string) string {
 type poolRun struct {
 	rec        *recorder
 	exact, cap int
+	parts      string // tokens of every part of the profile ("" = not known part by part)
 	conf       engine.InstancePoolConfig
 }
 
@@ -62,6 +63,7 @@ func mkPool(get func(string) string, metrics engine.Metrics) (*poolRun, error) {
 	pr := &poolRun{rec: rec}
 	// the real schedule may round (const, line, step): learn the exact token count from a twin
 	pr.exact = mkSchedule(get("sched"), tokens).Left()
+	pr.parts = partsLeft(get("sched"), tokens)
 	pr.cap = mkStartup(get("start"), inst).Left()
 	p := mkProvider(rec, get("prov"), atoi(get("ammo")))
 	var ids map[any]int
@@ -139,15 +141,14 @@ func runReal(input string) string {
 		}
 	}
 	var c *ctl
+	comp := false
 	if m["fine"] == "1" {
-		// scheduling points inside Next / Left exist for the leaf profiles only (a composite holds its lock around them)
-		leaf := m["sched"] == "" || m["sched"] == "once" || m["sched"] == "const" || m["sched"] == "line" || strings.HasPrefix(m["sched"], "paced")
-		if m["rpsy"] == "split" { // a list of two parts is a composite
-			leaf = false
+		// scheduling points inside Next / Left: a leaf profile is parked before each of its accesses to its shared state, a
+		// (flat) composite before each of its Lock / RLock statements, i.e. between its critical sections
+		if npools != 1 || m["ctl"] == "" || prs[0].parts == "" {
+			return "res=noinstr why=fine-needs-one-pool-known-parts-ctl"
 		}
-		if !leaf || npools != 1 || m["ctl"] == "" {
-			return "res=noinstr why=fine-needs-one-pool-leaf-profile-ctl"
-		}
+		comp = strings.Contains(prs[0].parts, ",")
 	}
 	if npools > 1 && (m["sctl"] == "1" || m["fine"] == "1") {
 		return "res=noinstr why=sctl-and-fine-need-one-pool"
@@ -163,7 +164,7 @@ func runReal(input string) string {
 		c = &ctl{r: rec, wake: make(chan struct{}, 1), parked: map[int]chan struct{}{}, resting: map[int]bool{},
 			started: func() int { return int(metrics.InstanceStart.Get()) }, stop: make(chan struct{}),
 			wait: 300 * time.Microsecond, firstWait: 20 * time.Millisecond, last: -1,
-			fine: m["fine"] == "1", pending: map[int][]string{},
+			fine: m["fine"] == "1", comp: comp, pending: map[int][]string{},
 			sctl: m["sctl"] == "1" && (m["start"] == "" || m["start"] == "once"), finished: func() int { return int(metrics.InstanceFinish.Get()) }}
 		if c.sctl {
 			c.last = -2
@@ -208,7 +209,7 @@ func runReal(input string) string {
 			}
 			c.rng = rand.New(rand.NewSource(seed))
 			c.style = style
-			if c.fine && (m["sched"] == "once" || m["sched"] == "") && atoi(m["shotus"]) == 0 {
+			if c.fine && (m["sched"] == "once" || m["sched"] == "" || m["sched"] == "comp" || strings.HasPrefix(m["sched"], "cz:")) && !strings.Contains(m["sched"], "c.") && !strings.HasSuffix(m["sched"], "c") && atoi(m["shotus"]) == 0 {
 				// nothing sleeps: a long patience costs nothing and keeps "one instance runs at a time" true
 				c.wait = 400 * time.Millisecond
 				c.firstWait = time.Second
@@ -236,11 +237,8 @@ func runReal(input string) string {
 	if c != nil {
 		// controlled runs use instantaneous profiles of a few tokens: (tokens + instances) iterations of at most 7 logged
 		// operations each is all a pool can do
-		for j, pr := range prs {
-			tk := atoi(m["tokens"])
-			if v, ok := m["tokens."+itoa(j)]; ok {
-				tk = atoi(v)
-			}
+		for _, pr := range prs {
+			tk := pr.exact
 			pr.rec.maxEvs = 64*(tk*pr.cap+pr.cap+4) + 256
 			pr.rec.onRunaway = func() {
 				c.halt()
@@ -282,6 +280,9 @@ func runReal(input string) string {
 		mn, mx := pr.rec.relMinMax()
 		fmt.Fprintf(&sb, " exact%s=%d cap%s=%d uar%s=%d dbl%s=%d relmin%s=%d relmax%s=%d", sfx, pr.exact, sfx, pr.cap, sfx, b(pr.rec.uar),
 			sfx, b(pr.rec.dbl), sfx, mn, sfx, mx)
+		if pr.parts != "" {
+			fmt.Fprintf(&sb, " parts%s=%s", sfx, pr.parts)
+		}
 		if c != nil && j == 0 {
 			fmt.Fprintf(&sb, " partial=%d br=%s", c.partial, string(c.br))
 		}
@@ -495,6 +496,50 @@ func gen(r *rand.Rand, tier string) []string {
 		out = append(out, line(inst, shared, tokens, pick(r, -1, -1, r.Intn(8), tokens, tokens+1), r.Intn(2), pick(r, 0, 0, 1, 2), 0, "once", extra))
 	}
 
+	// 4c. … and INSIDE a composite profile (a profile written as a list of parts, zero-token parts anywhere): the
+	//     scheduling points are the ones before the composite's Lock / RLock statements, so an instance can be parked
+	//     between the critical sections of ONE Next() — after the reader section that found the current part drained,
+	//     before the writer section that starts the next part — while the others drop parts, drain them, start again
+	n = 220
+	if thorough {
+		n = 25000
+	}
+	for i := 0; i < n; i++ {
+		inst := 2 + r.Intn(3)
+		np := 2 + r.Intn(3)
+		ps := make([]string, np)
+		sum := 0
+		for k := range ps {
+			v := pick(r, 0, 0, 0, 1, 1, 2, 3)
+			ps[k] = itoa(v)
+			if r.Intn(6) == 0 {
+				ps[k] += "c" // a const part instead of a once part
+			}
+			sum += v
+		}
+		kind := "cz:" + strings.Join(ps, ".")
+		if r.Intn(6) == 0 {
+			kind = "comp"
+			sum = r.Intn(6)
+		}
+		shared := 1
+		if r.Intn(4) == 0 {
+			shared = 0
+		}
+		extra := fmt.Sprintf("prov=%s aggr=%s ctl=rand:%d:%d fine=1", pick(r, "mock", "mock", "mock", "json", "num"), pick(r, aggrs...), r.Intn(1000000), r.Intn(3))
+		switch r.Intn(6) {
+		case 0:
+			extra += " sctl=1"
+		case 1: // the same list read by the real config reader
+			extra += " cfg=" + pick(r, "cli", "yaml2") + " rpsy=" + pick(r, "list", "block", "nest", "map")
+		}
+		total := sum
+		if shared == 0 {
+			total = sum * inst
+		}
+		out = append(out, line(inst, shared, sum, pick(r, -1, -1, total, total, r.Intn(8), total+1), r.Intn(2), pick(r, 0, 0, 0, 1, 2), 0, kind, extra))
+	}
+
 	// 4b. engines with two or three pools that share the Request / Response counters
 	n = 40
 	if thorough {
@@ -546,7 +591,7 @@ func gen(r *rand.Rand, tier string) []string {
 						if r.Intn(5) == 0 && route == "cli" {
 							extra += " fold=1"
 						}
-						leaf := kind == "once" && sp != "split"
+						leaf := kind == "once" || kind == "comp" // (a split list and comp are composites: parked between their critical sections)
 						switch r.Intn(4) {
 						case 0:
 							extra += fmt.Sprintf(" ctl=rand:%d:%d", r.Intn(1000000), r.Intn(3))
@@ -650,6 +695,12 @@ func gen(r *rand.Rand, tier string) []string {
 		bases = append(bases, line(2, 0, 1, -1, 0, 0, 0, "once", "fine=1"), line(2, 1, 0, -1, 0, 0, 0, "once", "fine=1"),
 			line(2, 1, 2, -1, 1, 2, 0, "once", "fine=1"), line(3, 1, 1, -1, 0, 0, 0, "once", "fine=1"), line(3, 1, 1, 2, 0, 0, 0, "once", "fine=1"))
 	}
+	// 5g. … and of the interleavings of the critical sections of a composite profile whose first parts have no tokens
+	bases = append(bases, line(2, 1, 1, 1, 0, 0, 0, "cz:0.0.1", "fine=1"))
+	if thorough {
+		bases = append(bases, line(2, 1, 1, -1, 0, 0, 0, "cz:0.0.1", "fine=1"), line(2, 1, 2, 2, 0, 0, 0, "cz:1.0.1", "fine=1"),
+			line(3, 1, 1, 1, 0, 0, 0, "cz:0.1", "fine=1"), line(2, 0, 1, -1, 0, 0, 0, "cz:0.0.1", "fine=1"))
+	}
 	// 5c. … and of pools built by the real config reader from a profile written as a list
 	bases = append(bases, line(2, 0, 1, 1, 0, 0, 0, "once", "cfg=cli rpsy=list"), line(2, 0, 1, -1, 1, 1, 0, "once", "cfg=yaml2 rpsy=list"))
 	if thorough {
@@ -674,12 +725,14 @@ func gen(r *rand.Rand, tier string) []string {
 		}
 	} else {
 		pbBases = append(pbBases, line(3, 1, 2, -1, 0, 0, 0, "once", ""), line(3, 0, 2, 3, 1, 2, 0, "once", ""),
+			line(3, 1, 2, 2, 0, 0, 0, "cz:1.0.1", "fine=1"),
 			line(3, 1, 1, -1, 0, 0, 0, "once", "fine=1"), line(3, 1, 2, 2, 0, 0, 0, "once", "sctl=1"),
 			line(3, 0, 2, 4, 0, 0, 0, "once", "cfg=cli rpsy=list"),
 			line(2, 1, 1, -1, 0, 0, 0, "once", "pools=2 shared.1=0 tokens.1=1 ammo.1=2 inst.1=2 discard.1=0"))
 	}
 	if thorough {
 		pbBases = append(pbBases, line(3, 1, 2, -1, 0, 0, 0, "once", "fine=1"), line(4, 1, 1, 3, 0, 0, 0, "once", "fine=1"),
+			line(2, 1, 2, 2, 0, 0, 0, "cz:0.0.2", "fine=1"), line(3, 1, 3, 3, 0, 0, 0, "comp", "fine=1"), line(3, 1, 1, 1, 0, 0, 0, "cz:0.0.0.1", "fine=1 cfg=cli rpsy=list"),
 			line(3, 0, 2, 3, 1, 2, 0, "once", "fine=1"),
 			line(2, 1, 2, 3, 1, 2, 0, "once", "pools=2 shared.1=0 tokens.1=2 ammo.1=-1 inst.1=2 discard.1=0 aggr=phout"),
 			line(2, 0, 1, -1, 0, 0, 0, "once", "pools=3 shared.1=1 tokens.1=2 ammo.1=1 inst.1=2 discard.1=0 shared.2=1 tokens.2=1 ammo.2=-1 inst.2=1 discard.2=0 cfg=cli rpsy=list"))
@@ -794,6 +847,9 @@ func main() {
 			}
 			if m["fine"] == "1" {
 				how += "+fine"
+				if strings.Contains(o["parts"], ",") {
+					how += "-composite"
+				}
 			}
 			if m["sctl"] == "1" {
 				how += "+starter"
